@@ -4,6 +4,7 @@ package evmclient
 // package: it imports evmclient).  Every answer is under the harness' control.
 
 import (
+	"time"
 	"context"
 	"crypto/ecdsa"
 	"errors"
@@ -34,6 +35,9 @@ type vStub struct {
 	offered     []uint64 // nonces of every transaction handed to SendTransaction
 	txs         map[common.Hash]*types.Transaction
 	batch       func(ctx context.Context, b []rpc.BatchElem) error
+	gasArmed    bool
+	gasHit      chan struct{}
+	gasRel      chan struct{}
 }
 
 func newVStub() *vStub {
@@ -93,6 +97,18 @@ func (s *vStub) SuggestGasTipCap(context.Context) (*big.Int, error) {
 	return big.NewInt(1000000000), nil
 }
 func (s *vStub) EstimateGas(context.Context, ethereum.CallMsg) (uint64, error) {
+	// a one-shot gate: the caller (inside newTx) is held until released
+	s.mu.Lock()
+	armed, hit, rel := s.gasArmed, s.gasHit, s.gasRel
+	s.gasArmed = false
+	s.mu.Unlock()
+	if armed {
+		close(hit)
+		select {
+		case <-rel:
+		case <-time.After(2 * time.Second):
+		}
+	}
 	s.mu.Lock()
 	defer s.mu.Unlock()
 	if s.fault == "estimate" {
@@ -117,7 +133,12 @@ func (s *vStub) CallContract(context.Context, ethereum.CallMsg, *big.Int) ([]byt
 func (s *vStub) TransactionReceipt(context.Context, common.Hash) (*types.Receipt, error) {
 	return nil, ethereum.NotFound
 }
-func (s *vStub) TransactionByHash(context.Context, common.Hash) (*types.Transaction, bool, error) {
+func (s *vStub) TransactionByHash(_ context.Context, h common.Hash) (*types.Transaction, bool, error) {
+	s.mu.Lock()
+	defer s.mu.Unlock()
+	if tx, ok := s.txs[h]; ok {
+		return tx, true, nil // every transaction the node accepted is still in its pool
+	}
 	return nil, false, ethereum.NotFound
 }
 
